@@ -46,6 +46,19 @@ Proof.
 Qed.
 Print Assumptions C13_num_to_string_shape.
 
+(* the step Range takes with every counter value - text and back - changes no term: on any
+   list of values of the type (the terms of a Range are such: they are values of T) the
+   codec is the identity, which is why C13_Model.range_g writes the counter itself *)
+Theorem C13_codec_identity_on_terms : forall w l, 0 < w ->
+  (Forall (fits w) l -> map (fun i => n_signed w (num_to_string i)) l = map Ok l) /\
+  (Forall (ufits w) l -> map (fun i => n_unsigned w (num_to_string i)) l = map Ok l).
+Proof.
+  intros w l Hw. split; intros H; induction H as [|x l Hx _ IH]; cbn [map]; try reflexivity; f_equal; try exact IH.
+  - exact (C13_n_num_to_string_signed w x Hw Hx).
+  - exact (C13_n_num_to_string_unsigned w x Hx).
+Qed.
+Print Assumptions C13_codec_identity_on_terms.
+
 (* ---- Bound.Enclose (find.go), the bounds test under Nth, called directly (wire 78, 79) ---- *)
 
 (* Bound{lo,hi}.Enclose(n) says lo <= |n| <= hi ... *)
